@@ -47,6 +47,10 @@ static std::string outcome(F &&f) {
   } catch (const chaiscript::exception::eval_error &e) { r = "eval_error:" + vh::clean(e.reason, 60);
   } catch (const chaiscript::exception::file_not_found_error &e) { r = "file_not_found";
   } catch (const Boxed_Value &) { r = "thrown_boxed";
+  } catch (int v) { r = "thrown_int:" + std::to_string(v);              // unboxed by an exception_specification
+  } catch (double v) { r = "thrown_double:" + vh::hex64(vh::dbits(v));
+  } catch (const std::string &v) { r = "thrown_string:" + vh::hex_encode(v);
+  } catch (bool v) { r = std::string("thrown_bool:") + (v ? "1" : "0");
   } catch (const std::exception &e) { r = std::string("std:") + vh::clean(e.what(), 60);
   } catch (...) { r = "other"; }
   std::string l;
@@ -80,7 +84,24 @@ int main() {
       chai.set_locals(lo); chai.set_state(st);
       const std::string e = outcome([&] { return chai.eval(strip_bom(content), Exception_Handler(), path); });
       chai.set_locals(lo); chai.set_state(st);
-      out = loaded + "- agree=" + (f == e ? "1" : "0") + " f=" + f + " e=" + e;
+      // every other overload of eval_file against the overload of eval it stands for: with an exception handler (script-thrown values are unboxed
+      // to the listed C++ types), and typed (the result is cast)
+      const auto spec = exception_specification<int, double, const std::string &, bool>();
+      bool all = f == e;
+      std::string extra;
+      auto both = [&](const char *tag, auto &&ff, auto &&ee) {
+        const std::string a = outcome(ff);
+        chai.set_locals(lo); chai.set_state(st);
+        const std::string b = outcome(ee);
+        chai.set_locals(lo); chai.set_state(st);
+        if (a != b) { all = false; extra += std::string(" ") + tag + ":f=" + a + " e=" + b; }
+      };
+      const std::string body = strip_bom(content);
+      both("handler", [&] { return chai.eval_file(path, spec); }, [&] { return chai.eval(body, spec, path); });
+      both("typed-int", [&] { return Boxed_Value(chai.eval_file<int>(path)); }, [&] { return Boxed_Value(chai.eval<int>(body, Exception_Handler(), path)); });
+      both("typed-int-handler", [&] { return Boxed_Value(chai.eval_file<int>(path, spec)); }, [&] { return Boxed_Value(chai.eval<int>(body, spec, path)); });
+      both("typed-string-handler", [&] { return Boxed_Value(chai.eval_file<std::string>(path, spec)); }, [&] { return Boxed_Value(chai.eval<std::string>(body, spec, path)); });
+      out = loaded + "- agree=" + (all ? "1" : "0") + " f=" + f + " e=" + e + extra;
       unlink(path.c_str());
     } else if (w.size() == 3 && w[0] == "use") {
       const int nd = std::stoi(w[1]);
